@@ -64,6 +64,7 @@ type Options struct {
 	StrictRespType    string          `json:"strict_response_type,omitempty"`
 	StrictRespJSON    json.RawMessage `json:"strict_response_json,omitempty"`
 	StrictHandlerErr  bool            `json:"strict_handler_error,omitempty"`
+	Warmup            int             `json:"warmup,omitempty"`              // identical requests served on the same handler before the observed one
 	StrictWithOptions bool            `json:"strict_with_options,omitempty"` // net/http flavours: NewStrictHandlerWithOptions
 }
 
@@ -393,8 +394,25 @@ func serve(p Package, sc *Scenario, req *http.Request, res *Result) {
 		res.Err = "mount: " + err.Error()
 		return
 	}
+	// warm-up: the same request served on the same mounted handler before the observed one (a server must
+	// treat its n-th request as its first); the trace and the recorder are those of the last serve only
+	var body []byte
+	if req.Body != nil {
+		body, _ = io.ReadAll(req.Body)
+	}
+	again := func() *http.Request {
+		r2 := httptest.NewRequest(req.Method, req.URL.RequestURI(), bytes.NewReader(body))
+		r2.Header = req.Header.Clone()
+		return r2
+	}
+	for i := 0; i < sc.Opts.Warmup; i++ {
+		h.ServeHTTP(httptest.NewRecorder(), again())
+	}
+	t.mu.Lock()
+	t.Events = nil
+	t.mu.Unlock()
 	rec := httptest.NewRecorder()
-	h.ServeHTTP(rec, req)
+	h.ServeHTTP(rec, again())
 	res.Status = rec.Code
 	res.RespHeader = rec.Header()
 	res.RespBody = rec.Body.String()
